@@ -1,11 +1,28 @@
 """C07 - heartbeat ingestion through the store equals heartbeat_reduce of the stream."""
+S = "aw_datastore.storages.sqlite.SqliteStorage."
 PROP = dict(
     id="C07",
     level="other",
-    contract_modules=["contracts.models"],
-    spec_modules=["contracts.models"],
-    functions=[],
+    contract_modules=["contracts.models", "contracts.heartbeats", "contracts.sqlite"],
+    spec_modules=["contracts.heartbeats", "contracts.sqlite"],
+    functions=[dict(fn="contracts.sqlite.heartbeat_step", rt_skip=True),
+               dict(fn="aw_transform.heartbeats.heartbeat_merge", rt_skip=True),
+               dict(fn=S + "get_events", rt_skip=True),
+               dict(fn="aw_datastore.storages.sqlite._rows_to_events", rt_skip=True),
+               dict(fn=S + "replace_last", rt_skip=True),
+               dict(fn=S + "insert_one", rt_skip=True),
+               dict(fn=S + "conditional_commit", rt_skip=True),
+               dict(fn=S + "commit", rt_skip=True)],
+    timeout_s=20,
     extra=[lambda run: run.storage_mode("c07", what="the standard heartbeat loop on the real back ends vs heartbeat_reduce, with a populated neighbour bucket sharing instants")],
-    technique="run-time check of the real back ends (bounded); contract-based proof of the sqlite methods is layered on top where built",
-    explanation="bounded: random heartbeat streams (strictly increasing timestamps, non-decreasing ends, zero and positive durations, repeated/alternating data, gaps below/at/above the pulsetime) are fed through the standard loop (get(limit=1), heartbeat_merge, replace_last or insert) on memory, sqlite and peewee with a populated second bucket sharing instants; the bucket must hold exactly heartbeat_reduce(stream) and the other bucket must be unchanged. heartbeat_merge/heartbeat_reduce themselves are proved in C08.",
+    technique="run-time check of the real back ends (bounded); with one step of the standard loop proved as a lemma over the contracts of the sqlite read/replace-last/insert methods and of heartbeat_merge",
+    explanation="deductive (sqlite): contracts.sqlite.heartbeat_step is the loop body the statement spells out (limit-1 read, heartbeat_merge, replace_last or insert_one), verified against the *contracts* of those four functions, which are themselves discharged from the source in this check: the step rewrites exactly the newest event of the addressed bucket with the merge result or appends the heartbeat under a never-used id, and every other row of every bucket is as before (no earlier event is altered or lost). That iterating the step yields heartbeat_reduce(stream), and the decode/encode fidelity of the stored floats, are only bounded. " 
+                "bounded: random heartbeat streams (strictly increasing timestamps, non-decreasing ends, zero and positive durations, repeated/alternating data, gaps below/at/above the pulsetime) are fed through the standard loop (get(limit=1), heartbeat_merge, replace_last or insert) on memory, sqlite and peewee with a populated second bucket sharing instants; the bucket must hold exactly heartbeat_reduce(stream) and the other bucket must be unchanged. heartbeat_merge/heartbeat_reduce themselves are proved in C08.",
 )
+
+F = "/repo/aw_datastore/storages/sqlite.py"
+MUTANTS = [
+    (F, 'ORDER BY starttime DESC, endtime DESC, id DESC LIMIT 1)"""', 'ORDER BY endtime DESC, starttime DESC, id DESC LIMIT 1)"""', True),   # replace_last and the limit-1 read disagree
+    (F, '            ORDER BY starttime DESC, endtime DESC, id DESC LIMIT ?\n', '            ORDER BY starttime DESC, id DESC LIMIT ?\n', True),          # the read picks another tie-break
+    ("/repo/aw_transform/heartbeats.py", "if last_event.data == heartbeat.data:", "if last_event.data != heartbeat.data:", True),
+]
